@@ -294,12 +294,21 @@ def main():
     allconds = [sp + b for sp in ('>=', '<=', '!=', '==', '=', '>', '<', '') for b in bounds]
     wc = 0
     maxchk = ck.q(2, 3)
-    starts = [Range(), Range(min=Version('1.0'), min_eq=True), Range(min=Version('1.0'), min_eq=True, max=Version('1.10'), max_eq=True)]
+    def mk_starts():
+        return [Range(), Range(min=Version('1.0'), min_eq=True), Range(min=Version('1.0'), min_eq=True, max=Version('1.10'), max_eq=True)]
+    starts = mk_starts()
     for k in range(0, maxchk + 1):
         for lst in itertools.product(allconds, repeat=k):
             for st in (starts if k <= 2 else starts[:1]):
+                before = (st.min, st.min_eq, st.max, st.max_eq, repr(st))
                 r = version_check_to_range(list(lst), st)
                 wc += 1
+                if (st.min, st.min_eq, st.max, st.max_eq, repr(st)) != before:
+                    # the caller's range is an argument, not scratch space: whoever holds it uses it again
+                    ck.violation('C19:check_to_range:start-mutated', 'version_check_to_range(%r, start) changed its start argument from %s to %s'
+                                 % (list(lst), before[4], st), {'checks': list(lst), 'start': before[4]})
+                    starts = mk_starts()
+                    break
                 for v, vs in zip(pver, probes):
                     if v not in st:
                         continue
